@@ -6,6 +6,10 @@ CLAIMED = {
    technique="bounded exhaustive enumeration of source texts (all strings / lexeme sequences / edit neighbourhoods up to a bound) executed on the real parser in two build configurations",
    text="Every source text of the stated bounded spaces (all strings <=5/6 chars over a 25-symbol class alphabet, all sequences <=3/4 of 83 lexemes, every single lexeme edit of a corpus of valid programs, bounded double edits, a nesting-depth family) is parsed by the real code in a debug-assertions build and in the release build: no panic, abort, hang; a rendered error; identical observable result in both builds. Totality is a for-all-strings claim, so complete enumeration of small strings (where every lexer/parser branch is reachable) is the right level.",
    note="Trusted: the checked build asserts the preconditions of rrss's unsafe fast paths; release-only out-of-bounds reads are seen only through the differential on the rendered result. Not covered: texts beyond the bounds, nesting beyond 300."),
+ "C12": dict(level="exploration", design="§2 C12",
+   technique="bounded exhaustive enumeration of source texts executed on the real lexer with a structural position oracle, two build configurations",
+   text="All strings <=6/7 characters over an 18-symbol alphabet chosen for position bookkeeping (quotes, parentheses, LF, CR, apostrophes, suffix letters, multi-byte letter and space, digit, dot, underscore, punctuation) and all glued/spaced sequences of multi-line literals, suffixes and other tokens are lexed by the real Lexer; for every token the check recomputes from the source text that the spelling is an in-order, disjoint sub-slice, that everything between tokens is ignorable, that id and spelling agree structurally, and that start/end line and byte column are the true ones. Exhaustive over the stated space, which contains every interaction of multi-line tokens, suffixes and line starts up to that length.",
+   note="Trusted: the line/column recomputation in the harness (count of LF bytes and offset from the last LF). Not covered: longer texts, other characters of the same classes; which alias is which keyword (C02)."),
 }
 NOT_YET = "check under construction in this session (not yet claimed)"
 ids=[json.loads(l)["id"] for l in open("/verif/properties.jsonl")]
